@@ -200,6 +200,38 @@ func okind(t types.Type) string {
 	return "KOther"
 }
 
+// cmpShape: "" if values of t compare structurally on all components, else the Gallina cshape that
+// leaves out blank struct fields
+func cmpShape(t types.Type) string {
+	switch u := under(t).(type) {
+	case *types.Struct:
+		any := false
+		var fs []string
+		for i := 0; i < u.NumFields(); i++ {
+			if u.Field(i).Name() == "_" {
+				fs = append(fs, "None")
+				any = true
+				continue
+			}
+			sh := cmpShape(u.Field(i).Type())
+			if sh == "" {
+				fs = append(fs, "(Some CAny)")
+			} else {
+				fs = append(fs, "(Some "+sh+")")
+				any = true
+			}
+		}
+		if any {
+			return "(CFields [" + strings.Join(fs, "; ") + "])"
+		}
+	case *types.Array:
+		if sh := cmpShape(u.Elem()); sh != "" {
+			return "(CElems " + sh + ")"
+		}
+	}
+	return ""
+}
+
 func ckind(t types.Type) string {
 	if k, ok := intKind(t); ok {
 		return "(CInt " + k + ")"
@@ -562,7 +594,11 @@ func (fs *fser) instr(ins ir.Instruction) (out string) {
 		if isFloatish(ins.X.Type()) {
 			return fs.unsupp(dst, "float/complex/chan/typeparam")
 		}
-		return fmt.Sprintf("bin %d %s %s %s %s %s", dn, binops[ins.Op], okind(ins.X.Type()), okind(ins.Y.Type()), fs.operand(ins.X), fs.operand(ins.Y))
+		xk := okind(ins.X.Type())
+		if sh := cmpShape(ins.X.Type()); sh != "" && xk == "KOther" {
+			xk = "(KShape " + sh + ")"
+		}
+		return fmt.Sprintf("bin %d %s %s %s %s %s", dn, binops[ins.Op], xk, okind(ins.Y.Type()), fs.operand(ins.X), fs.operand(ins.Y))
 	case *ir.UnOp:
 		s.Kinds[kind+":"+ins.Op.String()]++
 		var o string
